@@ -141,7 +141,15 @@ pub fn sym(args: &[String]) {
                 let mut why = String::new();
                 match r {
                     Ok(Ok(r)) => {
-                        if r.status != r1.status || r.t.len() != r1.t.len() { why = format!("{} copies: {} samples ({:?}) instead of {} ({:?})", m, r.t.len(), r.status, r1.t.len(), r1.status); }
+                        if implicit {
+                            // Radau and BDF change the step size in quantised jumps (the step is kept while the proposal stays
+                            // within a dead band), so a rounding-level difference in the error norm may flip one decision and
+                            // shift later step points by a percent: compare status, amount of work and the final state
+                            let (a, b) = (r.y.last().unwrap(), r1.y.last().unwrap());
+                            if r.status != r1.status || r.t.len().abs_diff(r1.t.len()) > 2 + r1.t.len() / 10 { why = format!("{} copies: {} samples ({:?}) instead of {} ({:?})", m, r.t.len(), r.status, r1.t.len(), r1.status); }
+                            else if (0..m * n0).any(|q| (a[q] - b[q % n0]).abs() > 100.0 * (s.atol + s.rtol * b[q % n0].abs())) { why = format!("{} copies: final state differs beyond the tolerance scale", m); }
+                        }
+                        else if r.status != r1.status || r.t.len() != r1.t.len() { why = format!("{} copies: {} samples ({:?}) instead of {} ({:?})", m, r.t.len(), r.status, r1.t.len(), r1.status); }
                         else {
                             'o: for (i, (ta, tb)) in r.t.iter().zip(r1.t.iter()).enumerate() {
                                 if (ta - tb).abs() > 1e-7 * (1.0 + tb.abs()) { why = format!("{} copies: step point {} is {} instead of {}", m, i, ta, tb); break; }
@@ -352,5 +360,195 @@ pub fn mass(args: &[String]) {
             }
             r15(case, "dae-index1", Method::RADAU, "c15-dae", &why, &extra);
         }
+    }
+}
+
+// ------------------------------------------------------------------------------------------------------------ C01
+fn tol_of(mode: usize, rtol: f64, atol: f64, n: usize) -> (Tolerance, Tolerance, Vec<f64>, Vec<f64>) {
+    match mode {
+        1 => { let av: Vec<f64> = (0..n).map(|i| atol * (1.0 + i as f64)).collect(); (rtol.into(), Tolerance::Vector(av.clone()), vec![rtol; n], av) }
+        2 => (0.0.into(), (rtol * 0.1).into(), vec![0.0; n], vec![rtol * 0.1; n]),           // pure absolute
+        3 => (rtol.into(), 0.0.into(), vec![rtol; n], vec![0.0; n]),                           // pure relative
+        _ => (rtol.into(), atol.into(), vec![rtol; n], vec![atol; n]),
+    }
+}
+
+/// C01: every returned sample against the closed-form solution; tolerance proportionality; RK4 order
+pub fn accuracy(args: &[String]) {
+    std::panic::set_hook(Box::new(|_| {}));
+    let seed: u64 = args.get(0).and_then(|s| s.parse().ok()).unwrap_or(1);
+    let cases: usize = args.get(1).and_then(|s| s.parse().ok()).unwrap_or(100);
+    let mut rng = Rng(seed ^ 0xC01);
+    const KINDS: [Kind; 5] = [Kind::Harmonic, Kind::Logistic, Kind::Decay3, Kind::Riccati, Kind::Slow];
+    const METHODS: [Method; 5] = [Method::RK23, Method::DOPRI5, Method::DOP853, Method::RADAU, Method::BDF];
+    for case in 0..cases {
+        let kind = *rng.pick(&KINDS);
+        let method = *rng.pick(&METHODS);
+        let span = rng.range(0.5, 4.0);
+        let back = rng.chance(0.35);
+        // backward only as far as the problem stays well-conditioned (Decay3 grows like e^{7|t|} backward)
+        let xend = if back { if kind == Kind::Decay3 { -span.min(0.3) } else { -span.min(1.5) } } else { span };
+        let lo = if matches!(method, Method::RK23) { 7.0 } else if matches!(method, Method::BDF) { 9.0 } else { 11.0 };
+        let rtol = 10f64.powf(-rng.range(3.0, lo));
+        let atol = rtol * 10f64.powf(-rng.range(0.0, 3.0));
+        // pure relative control only where the solution stays away from zero
+        let mode = { let m = rng.below(5); if m == 3 && !matches!(kind, Kind::Logistic | Kind::Riccati | Kind::Slow | Kind::Decay3) { 0 } else { m } };
+        let p = Prob { user_jac: rng.chance(0.5), ..Prob::new(kind) };
+        let n = p.n();
+        let y0 = p.y0();
+        let use_teval = rng.chance(0.3);
+        let run = |scale: f64| -> Option<(Solution, Vec<f64>, Vec<f64>)> {
+            let (rt, at, rv, av) = tol_of(mode, rtol * scale, atol * scale, n);
+            let mut o = Options::builder().method(method).rtol(rt).atol(at).build();
+            if use_teval { o.t_eval = Some((1..=7).map(|k| xend * k as f64 / 7.0).collect()); }
+            let q = Prob { user_jac: p.user_jac, ..Prob::new(kind) };
+            match catch_unwind(AssertUnwindSafe(|| solve_ivp(&q, 0.0, xend, &y0, o))) { Ok(Ok(s)) => Some((s, rv, av)), _ => None }
+        };
+        let errs = |s: &Solution, rv: &[f64], av: &[f64]| -> (f64, f64, String) {
+            // (max error, max ratio error/bound, description of the worst sample)
+            let mut emax: f64 = 0.0; let mut rmax: f64 = 0.0; let mut worst = String::new();
+            let nacc = s.naccpt.max(1) as f64;
+            for (t, y) in s.t.iter().zip(s.y.iter()) {
+                let ex = p.exact(*t).unwrap();
+                for i in 0..n {
+                    let e = (y[i] - ex[i]).abs();
+                    let bound = 10.0 * nacc * (av[i] + rv[i] * ex[i].abs()) + 200.0 * f64::EPSILON * nacc * (1.0 + ex[i].abs());
+                    emax = emax.max(e);
+                    if e / bound > rmax { rmax = e / bound; worst = format!("component {} at t = {}: error {:.3e}, 10 * naccpt({}) * (atol + rtol |y|) = {:.3e}", i, t, e, s.naccpt, bound); }
+                }
+            }
+            (emax, rmax, worst)
+        };
+        let extra = format!("\"rtol\":{},\"atol\":{},\"mode\":{},\"xend\":{},\"t_eval\":{},", jnum(rtol), jnum(atol), mode, jnum(xend), use_teval);
+        let mut why = String::new();
+        let mut key = "c01-accuracy";
+        match run(1.0) {
+            None => { why = "run fails".into(); }
+            Some((s, rv, av)) => {
+                if s.status != Status::Success { why = format!("status {:?} on a smooth non-stiff problem", s.status); key = if mode == 2 && method == Method::RADAU { "c01-radau-pure-absolute" } else { "c01-status" }; }
+                else {
+                    let (e1, r1, w1) = errs(&s, &rv, &av);
+                    if r1 > 1.0 { why = w1; }
+                    else if let Some((s2, rv2, av2)) = run(0.01) {
+                        // tightening the tolerances 100-fold must not increase the error (down to the rounding floor)
+                        // (errors far below the tolerance scale are rounding and cancellation, not control: ignored)
+                        let (e2, r2, _) = errs(&s2, &rv2, &av2);
+                        let floor = 1e-12 * (s2.naccpt.max(1) as f64).sqrt();
+                        if s2.status == Status::Success && rtol * 0.01 >= 1e-12 && e2 > 1.05 * e1.max(floor) && r2 > 0.01 { why = format!("tolerances / 100: max error grows from {:.3e} to {:.3e}", e1, e2); key = "c01-proportional"; }
+                    }
+                }
+            }
+        }
+        row("ac", case, ["scalar", "atol-vector", "pure-abs", "pure-rel", "scalar"][mode], kind, method, key, &why, &extra);
+    }
+    // RK4: fourth-order convergence of the global error under step refinement
+    for (k, kind) in KINDS.iter().enumerate() {
+        let p = Prob::new(*kind);
+        let y0 = p.y0();
+        let xend = if k % 2 == 0 { 2.0 } else { -1.0 };
+        let e = |steps: usize| -> f64 {
+            let mut o = Options::builder().method(Method::RK4).build();
+            o.first_step = Some(xend / steps as f64);
+            let s = solve_ivp(&Prob::new(*kind), 0.0, xend, &y0, o).unwrap();
+            let ex = p.exact(*s.t.last().unwrap()).unwrap();
+            s.y.last().unwrap().iter().zip(ex.iter()).map(|(a, b)| (a - b).abs()).fold(0.0, f64::max)
+        };
+        let (e1, e2) = (e(40), e(80));
+        let why = if e1 > 1e-11 && e1 / e2 < 10.0 { format!("halving the step reduces the error only by {:.2} ({:.3e} -> {:.3e}); expected about 16", e1 / e2, e1, e2) } else { String::new() };
+        row("ac", 100000 + k, "rk4-order", *kind, Method::RK4, "c01-rk4-order", &why, &format!("\"e40\":{},\"e80\":{},", jnum(e1), jnum(e2)));
+    }
+}
+
+// ------------------------------------------------------------------------------------------------------------ C14
+/// Prothero–Robinson system  y_i' = -lam_i (y_i - phi_i(t)) + phi_i'(t),  phi_i(t) = cos(t + i)   (solution y = phi)
+struct PR { lam: Vec<f64>, sign: f64, user_jac: bool }
+impl IVP for PR {
+    fn ode(&self, t: f64, y: &[f64], d: &mut [f64]) {
+        for i in 0..y.len() { let ph = (t + i as f64).cos(); d[i] = -self.sign * self.lam[i] * (y[i] - ph) - (t + i as f64).sin(); }
+    }
+    fn jac(&self, t: f64, y: &[f64], j: &mut Matrix) {
+        if self.user_jac { for i in 0..y.len() { for k in 0..y.len() { j[(i, k)] = if i == k { -self.sign * self.lam[i] } else { 0.0 }; } } }
+        else {
+            let n = y.len(); let mut yp = y.to_vec(); let mut f0 = vec![0.0; n]; let mut f1 = vec![0.0; n];
+            self.ode(t, y, &mut f0);
+            let eps = f64::EPSILON.sqrt();
+            for c in 0..n { let yo = y[c]; let p = eps * yo.abs().max(1.0); yp[c] = yo + p; self.ode(t, &yp, &mut f1); yp[c] = yo; for r in 0..n { j[(r, c)] = (f1[r] - f0[r]) / p; } }
+        }
+    }
+}
+
+/// C14: stiff problems on Radau and BDF
+pub fn stiff(args: &[String]) {
+    std::panic::set_hook(Box::new(|_| {}));
+    let seed: u64 = args.get(0).and_then(|s| s.parse().ok()).unwrap_or(1);
+    let cases: usize = args.get(1).and_then(|s| s.parse().ok()).unwrap_or(40);
+    let mut rng = Rng(seed ^ 0xC14);
+    let r14 = |case: usize, branch: &str, m: Method, key: &str, why: &str, extra: &str| {
+        println!("{{\"kind\":\"st\",\"case\":{},\"branch\":\"{}\",\"method\":\"{}\",\"finding_key\":\"{}\",{}\"ok\":{},\"why\":{:?}}}", case, branch, method_name(m), if why.is_empty() { "" } else { key }, extra, why.is_empty(), why);
+    };
+    for case in 0..cases {
+        let method = if rng.chance(0.5) { Method::RADAU } else { Method::BDF };
+        let n = 1 + rng.below(8);
+        let rtol = 10f64.powf(-rng.range(3.0, 6.0));
+        let atol = rtol * 1e-2;
+        let user_jac = rng.chance(0.5);
+        let back = rng.chance(0.25);
+        let xend = rng.range(1.0, 4.0) * if back { -1.0 } else { 1.0 };
+        // the same problem at stiffness ratios 1e2 .. 1e10: Success, error at the tolerance scale, step count bounded
+        let mut steps = vec![];
+        let mut why = String::new();
+        let mut key = "";
+        let pattern: Vec<f64> = (0..n).map(|_| rng.range(0.1, 1.0)).collect();
+        for ex in [2.0, 4.0, 6.0, 8.0, 10.0] {
+            let lam: Vec<f64> = pattern.iter().enumerate().map(|(i, u)| if i == 0 { 10f64.powf(ex) } else { 10f64.powf(ex * u) }).collect();
+            let p = PR { lam, sign: if back { -1.0 } else { 1.0 }, user_jac };
+            let y0: Vec<f64> = (0..n).map(|i| (i as f64).cos()).collect();
+            let o = Options::builder().method(method).rtol(rtol).atol(atol).build();
+            match catch_unwind(AssertUnwindSafe(|| solve_ivp(&p, 0.0, xend, &y0, o))) {
+                Ok(Ok(s)) => {
+                    steps.push(s.nstep);
+                    if s.status != Status::Success && why.is_empty() { why = format!("stiffness 1e{}: status {:?}", ex, s.status); key = "c14-status"; }
+                    let nacc = s.naccpt.max(1) as f64;
+                    for (t, y) in s.t.iter().zip(s.y.iter()) { for i in 0..n {
+                        let e = (y[i] - (t + i as f64).cos()).abs();
+                        let b = 10.0 * nacc * (atol + rtol);
+                        if e > b && why.is_empty() { why = format!("stiffness 1e{}: component {} at t = {} off by {:.3e} (> {:.3e})", ex, i, t, e, b); key = "c14-accuracy"; }
+                    } }
+                }
+                _ => { if why.is_empty() { why = format!("stiffness 1e{}: run fails", ex); key = "c14-status"; } steps.push(0); }
+            }
+        }
+        if why.is_empty() {
+            let (mn, mx) = (*steps.iter().min().unwrap(), *steps.iter().max().unwrap());
+            if mx > 3 * mn + 60 { why = format!("step counts grow with the stiffness ratio: {:?} for 1e2..1e10", steps); key = "c14-steps"; }
+        }
+        r14(case, "prothero-robinson", method, key, &why, &format!("\"n\":{},\"user_jac\":{},\"rtol\":{},\"back\":{},\"steps\":{:?},", n, user_jac, jnum(rtol), back, steps));
+    }
+    // Robertson and Van der Pol
+    for (k, (kind, xend)) in [(Kind::Robertson, 40.0), (Kind::Robertson, 4000.0), (Kind::VdPStiff, 30.0), (Kind::VdPStiff, 800.0)].iter().enumerate() {
+        for method in [Method::RADAU, Method::BDF] { for user_jac in [true, false] {
+            let p = Prob { user_jac, ..Prob::new(*kind) };
+            let o = Options::builder().method(method).rtol(1e-5).atol(1e-9).build();
+            let mut why = String::new();
+            let mut key = "";
+            let mut extra = String::new();
+            match catch_unwind(AssertUnwindSafe(|| solve_ivp(&p, 0.0, *xend, &p.y0(), o))) {
+                Ok(Ok(s)) => {
+                    extra = format!("\"nstep\":{},\"naccpt\":{},\"nrejct\":{},", s.nstep, s.naccpt, s.nrejct);
+                    if s.status != Status::Success { why = format!("{:?} to t = {}: status {:?}", kind, xend, s.status); key = "c14-status"; }
+                    else if s.nstep > 3000 { why = format!("{:?} to t = {}: {} steps", kind, xend, s.nstep); key = "c14-steps"; }
+                    else if *kind == Kind::Robertson {
+                        // the linear invariant y1 + y2 + y3 = 1 is preserved to rounding
+                        let dev = s.y.iter().map(|y| (y[0] + y[1] + y[2] - 1.0).abs()).fold(0.0, f64::max);
+                        if dev > 1e-11 * (s.naccpt.max(1) as f64) { why = format!("Robertson: y1 + y2 + y3 drifts from 1 by {:.3e}", dev); key = "c14-invariant"; }
+                        let yl = s.y.last().unwrap();
+                        // reference values: y(40) = (0.7158, 9.185e-6, 0.2842)
+                        if (*xend - 40.0).abs() < 1e-9 && ((yl[0] - 0.715827).abs() > 2e-4 || (yl[2] - 0.284164).abs() > 2e-4) { why = format!("Robertson at t = 40: {:?}", yl); key = "c14-accuracy"; }
+                    }
+                }
+                _ => { why = "run fails".into(); key = "c14-status"; }
+            }
+            r14(200000 + k, &format!("{:?}", kind), method, key, &why, &format!("{}\"user_jac\":{},\"xend\":{},", extra, user_jac, xend));
+        } }
     }
 }
